@@ -148,6 +148,50 @@ def correspond_and_oracle(chk: core.Check, n: int, n_obj: int):
     return diffs
 
 
+def object_histories(chk: core.Check, n: int):
+    """A HelixObject is a plain mutable object (public attributes dr, phi0, kappa, dz, tanl, pivot). Whatever was done with it
+    before - reading radius/momentum/position/charge, earlier pivot changes, isclose - and however its attributes were then
+    updated in place (momentum-scale corrections `h.kappa /= s`, a charge flip, a shifted dr ...), change_pivot must act on the
+    CURRENT parameters: the result must be the one a freshly built object with the same numbers gives (bit for bit)."""
+    import pybes3
+    rng = np.random.default_rng(chk.seed + 606)
+    h = hc.gen(rng, n, far=True)
+    for i in range(n):
+        o = pybes3.helix_obj(h["dr"][i], h["phi0"][i], h["kappa"][i], h["dz"][i], h["tanl"][i], pivot=tuple(h["piv"][i]))
+        used = []
+        for _ in range(int(rng.integers(0, 4))):
+            u = rng.choice(["radius", "momentum", "position", "charge", "change_pivot", "isclose"])
+            used.append(str(u))
+            if u == "change_pivot":
+                o.change_pivot(tuple(rng.uniform(-5, 5, 3)))
+            elif u == "isclose":
+                o.isclose(o)
+            else:
+                getattr(o, u)
+        upd = {}
+        for name in rng.choice(["kappa", "kappa", "dr", "phi0", "dz", "tanl"], size=int(rng.integers(1, 3)), replace=False):
+            v = getattr(o, name)
+            if name == "kappa":
+                v = v * rng.choice([1 / 1.005, 1.02, 0.5, 3.0, -1.0, -0.7])
+            elif name == "phi0":
+                v = float(rng.uniform(0, hc.TWO_PI))
+            else:
+                v = v + float(rng.uniform(-1, 1))
+            setattr(o, name, float(v)); upd[str(name)] = float(v)
+        new = tuple(h["new"][i])
+        got = o.change_pivot(new)
+        fresh = pybes3.helix_obj(o.dr, o.phi0, o.kappa, o.dz, o.tanl, pivot=(o.pivot.x, o.pivot.y, o.pivot.z)).change_pivot(new)
+        a = [got.dr, got.phi0, got.kappa, got.dz, got.tanl]
+        b = [fresh.dr, fresh.phi0, fresh.kappa, fresh.dz, fresh.tanl]
+        chk.count(1, key=f"history-{i}")
+        chk.hist("object_history_uses_before_update", len(used))
+        if not all((x == y) or (x != x and y != y) for x, y in zip(a, b)):
+            chk.failing_input("HelixObject.change_pivot after in-place parameter updates (history) vs a fresh object with the same parameters",
+                              {"initial": {k: (h[k][i].tolist() if h[k].ndim > 1 else float(h[k][i])) for k in h}, "used_before": used, "updated_in_place": upd, "new_pivot": list(new)},
+                              a, b, "the new helix describes the trajectory of the object's current parameters, whatever the object was used for before")
+            return
+
+
 def main(chk: core.Check) -> int:
     thorough = chk.tier == "thorough"
     n, n_obj = (40000, 3000) if thorough else (3000, 300)
@@ -162,6 +206,7 @@ def main(chk: core.Check) -> int:
         if diffs:
             chk.obligation_broken("correspondence", "Lean Float changePivot vs implementation", str(diffs[:3]))
         fixture_hits(chk)
+        object_histories(chk, 400 if thorough else 80)
     except core.DriverError as ex:
         chk.obligation_broken("correspondence", "helix driver", str(ex))
     return chk.finish(None)
